@@ -201,7 +201,7 @@ func init() {
 	prop("C19", []string{"R19a", "R19b", "R19c", "R19d", "R19e", "R19f", "R19g"},
 		structural+"Decided: (R19a/b/c/d) every command-line flag is read with the accessor of its own type into the field whose YAML tag is the flag's name, defaults agree, every flag is read and every YAML field has a flag; (R19e) both front ends return a configuration only through the one validator; (R19g) both normalise the listener addresses alike; (R19f) for each class of invalid set-up named by the property the validator has an error exit reached exactly by that defect (class-sliced exploration of validateConfig).",
 		"Not decided: environment-variable handling inside urfave/cli, YAML parser behaviour, semantic equivalence of nested proxy configurations beyond field wiring.")
-	prop("C20", []string{"R20a", "R20b", "R20c", "R20d", "R20f", "R12g", "R02d"},
+	prop("C20", []string{"R20a", "R20b", "R20c", "R20d", "R20f", "R12g", "R02d", "R04e"},
 		structural+"Decided: (R20a) the header writer emits the published v2 layout (magic, frame size, logical size, compression byte, chunk size, count, offsets; little-endian; table at byte 29); (R20b) the reader consumes the same (type, width) sequence; (R20c) each chunk is one independent zstd frame and the offset table records the file offset before each; (R02d) readers honour whatever chunk size the header states; (R20d) file names follow the published layout per key space; (R12g) backend object and resource names are the published injective templates.",
 		"Not decided: that zstd frames produced by the libraries are standard-conformant, readability by an independent implementation (needs executing one).")
 }
